@@ -218,5 +218,23 @@ PROPS["C03"] = dict(
     assumptions=["reference executor decides the set of field positions", "gqlparser decides validity of the undamaged documents"],
 )
 
+PROPS["C07"] = dict(
+    pkg="c07", race=True, level="exploration", prepare="exec_projects",
+    projects_quick=[("core", ["v0"])], projects_thorough=[("core", ["v0"])],
+    quick=dict(shards=8, timeout=900), thorough=dict(shards=16, timeout=3000),
+    claim="differential testing of one long-lived handler.Server (all HTTP transports, LRU(3) query cache, APQ) against freshly "
+          "constructed servers: rapid draws histories of 2-25 requests from a pool that deliberately shares query text across different "
+          "operationName / variables / extensions / X-Echo header / Accept, with optional members present or absent (successors often drop "
+          "members the predecessor had, on the same transport and text), valid and invalid bodies, over POST, GET, application/graphql, "
+          "urlencoded, multipart form, SSE and multipart/mixed; resolvers echo what they see of the request, so any leak changes the "
+          "body; every answer (status, Content-Type, body bytes) must equal the answer of a fresh server whose APQ cache holds exactly "
+          "the registrations the model says preceded it; the same pools are replayed from 2-8 goroutines under the race detector",
+    note="whether sync.Pool hands the same object to the next request is up to the runtime; websocket sessions are covered by C11",
+    technique="differential / metamorphic history testing (rapid) against a fresh-server oracle + Go race detector",
+    rule="evaluation = one request compared with a fresh server; non-trivial = a request whose predecessor on the same transport and text "
+         "had a superset of optional members, or a concurrent batch; distinct by (predecessor, request)",
+    assumptions=["resolvers are deterministic functions of the request (echo resolvers)"],
+)
+
 # properties deliberately not claimed (reason); anything else missing from PROPS is "not built yet"
 NOT_CLAIMED = {}
